@@ -3,11 +3,14 @@
 # applies the seeded patch to /repo, starts the check (which snapshots /repo into its scratch dir first), undoes the patch, waits.
 S=$1; C=$2; shift 2
 cd /verif
-git -C /repo apply /verif/seeded/$S/patch.diff || { echo "seeded=$S check=$C PATCH DOES NOT APPLY"; exit 9; }
-./check $C "$@" > /tmp/seeded-$S-$C.out 2>&1 &
+while [ -e /tmp/verif-repo-patched.lock ]; do sleep 1; done
+touch /tmp/verif-repo-patched.lock
+git -C /repo apply /verif/seeded/$S/patch.diff || { rm -f /tmp/verif-repo-patched.lock; false; } || { echo "seeded=$S check=$C PATCH DOES NOT APPLY"; exit 9; }
+VERIF_IGNORE_LOCK=1 VERIF_EVIDENCE_DIR=/tmp/seeded-evidence VERIF_LOG_SUFFIX=-seeded ./check $C "$@" > /tmp/seeded-$S-$C.out 2>&1 &
 PID=$!
 sleep 10
-git -C /repo checkout -- .
+git -C /repo apply -R /verif/seeded/$S/patch.diff || echo "WARNING: could not reverse seeded patch $S"
+rm -f /tmp/verif-repo-patched.lock
 wait $PID; RC=$?
 echo "seeded=$S check=$C rc=$RC $(grep -c '^VIOLATION' /tmp/seeded-$S-$C.out) violations; first: $(grep '^VIOLATION' /tmp/seeded-$S-$C.out | head -2 | tr '\n' ' ')"
 grep "^INCONCLUSIVE" /tmp/seeded-$S-$C.out | head -2
